@@ -179,8 +179,10 @@ func Main(install func(devs []*dev.Dev), idle *dev.Safe) {
 		o, _ := worker.Exec(&p.Warm[k], nil)
 		out.Warm = append(out.Warm, o)
 	}
-	if p.WarmJump != 0 {
-		zzclock.Jump(p.WarmJump)
+	if p.WarmJump != 0 && zzclock.Jump(p.WarmJump) > 0 {
+		// timers of the code under test came due during the idle period: what they wake runs (unscheduled,
+		// as every goroutine of the library's own does) next to the concurrent callers that start now
+		time.Sleep(200 * time.Microsecond)
 	}
 	res := s.Run(tasks)
 	out.Stats, out.Deadlock, out.StepCap, out.Protocol = res.Stats, res.Deadlock, res.StepCap, res.Protocol
